@@ -14,10 +14,12 @@ def stop_case(draw):
   sources = [{"kind": draw(st.sampled_from(["fifo", "lifo"])),
               "period": draw(st.sampled_from([0.5, 0.5, 1.0, 0.25])),
               "times": draw(st.sampled_from([0, 0, 4])),
-              "deferred": draw(st.booleans())} for _ in range(n)]
+              "deferred": draw(st.booleans()),
+              "sig": draw(st.sampled_from(["VB", "VB", "VD", "VE"]))} for _ in range(n)]
   return {"sources": sources, "stop_from": draw(st.sampled_from(["outside", "outside", "handler"])),
           "stop_at": draw(st.integers(0, 8)) * 0.25,
           "posts_before": draw(st.integers(0, 3)), "posts_with_stop": draw(st.integers(0, 2)),
+          "slow_step": draw(st.sampled_from([0.0, 0.0, 0.3, 1.0])),
           "schedule": [list(x) for x in draw(schedule_st)]}
 
 
@@ -26,8 +28,9 @@ class C12(Prop):
   quick_examples = 300
   thorough_examples = 4000
   rule = ("Generated scenarios under the deterministic scheduler and virtual clock: an ActiveObject "
-          "with 0-3 timed sources (periods 0.25-1.0, endless or 4 shots), a second ActiveObject "
-          "subscribed to a signal, plain posts queued before the stop; stop() is called at a "
+          "with 0-3 timed sources (periods 0.25-1.0, endless or 4 shots, over three signal names), a second ActiveObject "
+          "subscribed to a signal, plain posts queued before the stop, optionally a handler "
+          "that takes 0.3-1.0 s of virtual time and is running when stop() is called; stop() is called at a "
           "generated virtual instant (a multiple of 0.25, so it often coincides with a timer firing "
           "or falls inside a step) either from the body thread or from one of the object's own "
           "handlers, under generated schedules. Oracle: after stop() returned to an outside caller "
@@ -49,7 +52,9 @@ class C12(Prop):
 
     def body(s):
       def on_extra(c, e):
-        if e.signal_name == "VSTOP":
+        if e.signal_name == "VSLOW":
+          w.ao.time.sleep(e.payload)
+        elif e.signal_name == "VSTOP":
           info["handler_stop_inv"] = s.steps
           c.stop()
           info["handler_stop_ret"] = s.steps
@@ -61,9 +66,13 @@ class C12(Prop):
       s.quiesce()
       t0 = s.now
       for k, src in enumerate(case["sources"]):
-        getattr(chart, "post_" + src["kind"])(Event(signal=signals["VB"], payload=k), period=src["period"],
+        getattr(chart, "post_" + src["kind"])(Event(signal=signals[src.get("sig", "VB")], payload=k), period=src["period"],
                                               times=src["times"], deferred=src["deferred"])
       s.wake_at(t0 + case["stop_at"])
+      if case.get("slow_step"):
+        # a handler that takes (virtual) time: stop() must wait for the step to finish
+        chart.post_lifo(Event(signal=signals["VSLOW"], payload=case["slow_step"]))
+        s.wake_at(s.now + case["slow_step"] / 2)
       for j in range(case["posts_before"]):
         chart.post_fifo(Event(signal=signals["VA"], payload=100 + j))
       in_step = sum(1 if r[0] == "enter" else -1 for r in rec.rtc if r[3] == "ao1") > 0
@@ -110,7 +119,7 @@ class C12(Prop):
       if late_rtc:
         raise PropertyViolation("a run-to-completion step started at step %d after stop() returned at %d" % (
           late_rtc[0][1], ret), "C12:step-after-stop")
-      late = [p for p in rec.posts if p["ao"] == "ao1" and p["sig"] == "VB" and p["inv"] > ret]
+      late = [p for p in rec.posts if p["ao"] == "ao1" and p["sig"] in ("VB", "VD", "VE") and p["inv"] > ret]
     else:
       if "handler_stop_ret" not in info:
         raise PropertyViolation("the stop request was never dispatched (dispatched %s)" % (
@@ -123,7 +132,7 @@ class C12(Prop):
       if more:
         raise PropertyViolation("stop() from a handler at step %d: another step started at %d" % (
           ret, more[0][1]), "C12:step-after-stop")
-      late = [p for p in rec.posts if p["ao"] == "ao1" and p["sig"] == "VB" and p["inv"] > ret]
+      late = [p for p in rec.posts if p["ao"] == "ao1" and p["sig"] in ("VB", "VD", "VE") and p["inv"] > ret]
     if late:
       one_same_instant = len(late) <= len(case["sources"]) and len(set(p["id"] for p in late)) == len(late) and \
           all(p["now"] == late[0]["now"] for p in late) and \
